@@ -8,9 +8,13 @@ class C09(EngineProp):
     id = 'C09'
     lean_modules = ['RSocketModel.Props.C09']
     profiles = ['cancel', 'legal']
-    claimed = False   # until the Lean theorems land
     technique = 'Lean 4 proof (invariants of the engine model around subCancel/futCancel/recv CANCEL) + event-level differential correspondence'
-    level_text = 'see DESIGN.md §5 C09'
+    level_text = ('kernel-checked on the engine model: c09_subscription_cancel_sends_one_cancel, c09_future_cancel_sends_one_cancel (one CANCEL per cancellation, second callback run emits nothing), '
+                  'c09_cancel_only_from_cancellation (no other entry point ever emits CANCEL), c09_nothing_after_subscription_cancel / c09_nothing_after_future_cancel (no signal to the canceller in any '
+                  'continuation: in-flight frames, loss, anything), c09_peer_cancel_stops_producer (publisher subscription / handler future cancelled, stream unregistered), c09_late_frames_dropped, '
+                  'c09_cancel_is_local, c09_peer_cancel_is_local; on the credit model of the library sources: c09_source_cancel_stops_production (nothing more delivered or taken from the generator '
+                  'after cancel(), for every schedule). Correspondence: cancellation-heavy scripts against the real endpoint (event-level), the four library sources driven directly with cancel at any '
+                  'point, and CANCEL injected on the wire 0..5 ticks after the request.')
     level_note = 'Trusted: as C07; generator close() semantics of CPython for the library sources.'
     design_ref = '§5 C09'
     rule = 'as C07 with cancellation-heavy scripts: cancel injected at any position incl. "request and cancel in one read", "cancel racing completion", "response racing cancel"'
